@@ -19,8 +19,7 @@ def drivers():
 def record(drv, wd, mode, tag, thorough):
     tpath = os.path.join(wd, "%s_%s.ndjson" % (mode, tag))
     p = vp.run([drv, mode, tpath, str(vp.seed()), "1" if thorough else "0"], timeout=1100)
-    if p.returncode != 0:
-        raise vp.Broken("mem_driver %s/%s rc=%d %s" % (mode, tag, p.returncode, p.stderr[-300:]))
+    vp.exit_ok(p, "mem_driver %s/%s" % (mode, tag))
     return tpath
 
 
